@@ -11,10 +11,15 @@ _py_cache = {}
 _cy_cache = {}
 
 
+_SHARED = (ast.expr_context, ast.operator, ast.cmpop, ast.boolop, ast.unaryop)
+
+
 def set_parents(tree):
+    # ctx / operator nodes are singletons shared by every tree CPython parses: never hang a parent on them
     for n in ast.walk(tree):
         for ch in ast.iter_child_nodes(n):
-            ch.parent = n
+            if not isinstance(ch, _SHARED):
+                ch.parent = n
     return tree
 
 
